@@ -54,7 +54,7 @@ func fpos(f *ssa.Function) token.Pos {
 	return f.Pos()
 }
 
-func in(s string, set ...string) bool {
+func oneOf(s string, set ...string) bool {
 	for _, x := range set {
 		if s == x {
 			return true
@@ -184,3 +184,147 @@ func exitIsNil(e an.Exit, idx int) bool {
 }
 
 var _ = load.Abbrev
+
+// ---------------------------------------------------------------------------
+// Service-time reachability: functions reachable (VTA call graph) from the
+// roots that run while the emulator serves: every `go` statement's target and
+// every HTTP handler (ServeHTTP methods and func(ResponseWriter,*Request)
+// literals/functions). Start-up code reachable only from main is outside.
+
+type rootInfo struct {
+	Fn   *ssa.Function
+	Kind string // "go" | "http" | "main"
+	Site token.Pos
+	From *ssa.Function
+}
+
+var reachCache = map[*load.Program]map[*ssa.Function]bool{}
+var rootsCache = map[*load.Program][]rootInfo{}
+
+func isHTTPHandlerSig(sig *types.Signature) bool {
+	if sig.Params().Len() != 2 || sig.Results().Len() != 0 {
+		return false
+	}
+	return sig.Params().At(0).Type().String() == "net/http.ResponseWriter" && sig.Params().At(1).Type().String() == "*net/http.Request"
+}
+
+func serviceRoots(c *report.Ctx) []rootInfo {
+	if r, ok := rootsCache[c.P]; ok {
+		return r
+	}
+	var roots []rootInfo
+	cg := c.P.CallGraph()
+	for _, f := range repoFuncs(c) {
+		if isHTTPHandlerSig(f.Signature) && !strings.HasPrefix(an.FuncName(f), "L/testdata.") {
+			roots = append(roots, rootInfo{Fn: f, Kind: "http", Site: f.Pos(), From: f})
+		}
+		an.AllInstrs(f, func(in ssa.Instruction) {
+			g, ok := in.(*ssa.Go)
+			if !ok {
+				return
+			}
+			n := cg.Nodes[f]
+			found := false
+			if n != nil {
+				for _, e := range n.Out {
+					if e.Site == g && e.Callee.Func != nil {
+						roots = append(roots, rootInfo{Fn: e.Callee.Func, Kind: "go", Site: g.Pos(), From: f})
+						found = true
+					}
+				}
+			}
+			if !found {
+				if sc := g.Common().StaticCallee(); sc != nil {
+					roots = append(roots, rootInfo{Fn: sc, Kind: "go", Site: g.Pos(), From: f})
+				}
+			}
+		})
+	}
+	rootsCache[c.P] = roots
+	return roots
+}
+
+// reachableFrom computes the functions reachable from fns in the VTA call graph.
+func reachableFrom(c *report.Ctx, fns ...*ssa.Function) map[*ssa.Function]bool {
+	cg := c.P.CallGraph()
+	seen := map[*ssa.Function]bool{}
+	var stack []*ssa.Function
+	for _, f := range fns {
+		if f != nil && !seen[f] {
+			seen[f] = true
+			stack = append(stack, f)
+		}
+	}
+	for len(stack) > 0 {
+		f := stack[len(stack)-1]
+		stack = stack[:len(stack)-1]
+		n := cg.Nodes[f]
+		if n == nil {
+			continue
+		}
+		for _, e := range n.Out {
+			if g := e.Callee.Func; g != nil && !seen[g] {
+				seen[g] = true
+				stack = append(stack, g)
+			}
+		}
+		for _, a := range f.AnonFuncs {
+			// closures created here may be invoked through values the graph resolves; keep them only if called
+			_ = a
+		}
+	}
+	return seen
+}
+
+func serviceReachable(c *report.Ctx) map[*ssa.Function]bool {
+	if r, ok := reachCache[c.P]; ok {
+		return r
+	}
+	var fns []*ssa.Function
+	for _, r := range serviceRoots(c) {
+		fns = append(fns, r.Fn)
+	}
+	res := reachableFrom(c, fns...)
+	reachCache[c.P] = res
+	c.Analysed("service roots (go statements + HTTP handlers)", len(fns))
+	return res
+}
+
+// ---------------------------------------------------------------------------
+// R-WIRE support.
+
+var callerIdx = map[*load.Program]map[*ssa.Function][]ssa.CallInstruction{}
+
+func callersIndex(c *report.Ctx) map[*ssa.Function][]ssa.CallInstruction {
+	if m, ok := callerIdx[c.P]; ok {
+		return m
+	}
+	m := map[*ssa.Function][]ssa.CallInstruction{}
+	for _, f := range repoFuncs(c) {
+		an.AllInstrs(f, func(in ssa.Instruction) {
+			if call, ok := in.(ssa.CallInstruction); ok {
+				if sc := call.Common().StaticCallee(); sc != nil {
+					m[sc] = append(m[sc], call)
+				}
+			}
+		})
+	}
+	callerIdx[c.P] = m
+	return m
+}
+
+func newWire(c *report.Ctx, followFields map[string]bool, through map[string]int) *an.Wire {
+	idx := callersIndex(c)
+	return &an.Wire{
+		Callers:     func(f *ssa.Function) []ssa.CallInstruction { return idx[f] },
+		FollowField: func(s, f string) bool { return followFields[s+"."+f] },
+		FieldStores: func(s, f string) []*ssa.Store {
+			var out []*ssa.Store
+			for _, sts := range storesTo(c, s, f) {
+				out = append(out, sts...)
+			}
+			return out
+		},
+		Through: through,
+	}
+}
